@@ -33,6 +33,7 @@ structure Node where
   cid : Nat
   target : List String
   layer : Nat
+  virt : Bool            -- isImplicitDir: made up for the parent of a tar entry
 deriving DecidableEq, Repr
 
 /-- the valued nodes of a `pathtree.Node[fileNode]`.  (A structure rather than a bare function so that
@@ -82,13 +83,21 @@ structure Entry where
   target : List String
 deriving DecidableEq, Repr
 
-def Entry.node (e : Entry) (i : Nat) : Node := ⟨e.kind, e.wh, e.mode, e.size, e.cid, e.target, i⟩
+def Entry.node (e : Entry) (i : Nat) : Node := ⟨e.kind, e.wh, e.mode, e.size, e.cid, e.target, i, false⟩
 
 /-- the node `populateEmptyDirectoryNodes` makes up for a missing parent (mode = fs.ModeDir only) -/
-def implDir (i : Nat) : Node := ⟨.dir, false, 0, 0, 0, [], i⟩
+def implDir (i : Nat) : Node := ⟨.dir, false, 0, 0, 0, [], i, true⟩
 
 /-- the root node `addRootDirectoryToChainLayers` inserts -/
-def rootTree (i : Nat) : Tree := ⟨fun q => if q = [] then some (implDir i) else none⟩
+def rootNode (i : Nat) : Node := ⟨.dir, false, 0, 0, 0, [], i, false⟩
+def rootTree (i : Nat) : Tree := ⟨fun q => if q = [] then some (rootNode i) else none⟩
+
+/-- `*existingNode = *dirNode`: the implicit directory node that layer `i` made up at `p` is shared by every chain
+layer it was filled into; the tar's own directory entry overwrites it in place, wherever it sits -/
+def upgrade (i : Nat) (t : Tree) (p : Path) (n : Node) : Tree :=
+  match t.get p with
+  | some y => if y.virt && y.layer == i then upd t p n else t
+  | none => t
 
 abbrev Layer := List Entry
 
@@ -109,8 +118,19 @@ def populate (chains : List Tree) (i : Nat) (p : Path) : List Tree :=
 def fillEntry (chains : List Tree) (i : Nat) (e : Entry) : List Tree :=
   fillNode (populate chains i e.p) i e.p (e.node i)
 
+/-- the tar's own entry for a directory that an earlier entry of the same tar created implicitly (fix <P3>) -/
+def upgrades (own : Tree) (e : Entry) : Bool :=
+  match own.get e.p with
+  | some x => x.virt && e.kind == .dir && !e.wh
+  | none => false
+
+def upgradeAll (chains : List Tree) (i : Nat) (e : Entry) : List Tree :=
+  chains.mapIdx fun j t => if j < i then t else upgrade i t e.p (e.node i)
+
 def processEntryC (i : Nat) (chains : List Tree) (e : Entry) : List Tree :=
-  if ((chains.getD i emptyTree) e.p).isSome then chains else fillEntry chains i e
+  if ((chains.getD i emptyTree) e.p).isSome then
+    (if upgrades (chains.getD i emptyTree) e then upgradeAll chains i e else chains)
+  else fillEntry chains i e
 
 /-- the reverse loop of `FromV1Image` over chain layers `n-1 … 0` (an empty chain layer has no entries) -/
 def loadFrom (layers : List Layer) : Nat → List Tree → List Tree
@@ -129,7 +149,9 @@ def parentsFold (i : Nat) (ov : Tree × Tree) (ds : List Path) : Tree × Tree :=
     if (ov.1 d).isSome then ov else (fill1 ov.1 d (implDir i), fill1 ov.2 d (implDir i))) ov
 
 def entryStep (i : Nat) (st : Tree × Tree) (e : Entry) : Tree × Tree :=
-  if (st.1 e.p).isSome then st else
+  if (st.1 e.p).isSome then
+    (if upgrades st.1 e then (upgrade i st.1 e.p (e.node i), upgrade i st.2 e.p (e.node i)) else st)
+  else
   let ov := parentsFold i st (parents e.p)
   (fill1 ov.1 e.p (e.node i), fill1 ov.2 e.p (e.node i))
 
